@@ -142,7 +142,9 @@ def step_identities(repo, chk):
     def numeric(tr, d, args, kwargs, n):
         if d.split(".")[-1] == "uniform":
             counter[0] += 1
-            return (c + 1) / 2 if counter[0] % 2 == 1 else PHI / (2 * sp.pi)
+            u_ = (c + 1) / 2 if counter[0] % 2 == 1 else PHI / (2 * sp.pi)
+            lo_, hi_ = sp.sympify(kwargs.get("minval", 0)), sp.sympify(kwargs.get("maxval", 1))
+            return lo_ + (hi_ - lo_) * u_
         return NotImplemented
 
     odd_phase = []
@@ -163,7 +165,7 @@ def step_identities(repo, chk):
     def call(p_list):
         counter[0] = 0
         try:
-            return tr.call_fn(fn, [None, m0, m1, m2, sp.Symbol("n", positive=True), p_list])
+            return tr.call_fn(fn, [m0, m1, m2, sp.Symbol("n", positive=True), p_list], self_obj=SelfObj(repo.cls(K + "PhaseSpaceGenerator"), {}))
         except Unmodelled as e:
             raise AnalysisError("generate_momentum_i is not a single-path kernel any more: %s" % e)
 
@@ -256,11 +258,12 @@ def cascade(repo, chk):
                 odd = counter[0] % 2
                 counter[0] += 1
                 c_, t_ = dirs[k % len(dirs)]
+                lo_, hi_ = sp.sympify(kwargs.get("minval", 0)), sp.sympify(kwargs.get("maxval", 1))
                 if not odd:
-                    return (c_ + 1) / 2
+                    return lo_ + (hi_ - lo_) * (c_ + 1) / 2
                 ph = sp.Symbol("PHI%d" % k, real=True)
                 phis[ph] = t_
-                return ph / (2 * sp.pi)
+                return lo_ + (hi_ - lo_) * ph / (2 * sp.pi)
             return NotImplemented
 
         def trig(kind):
@@ -313,6 +316,11 @@ def roles(repo, chk, split_protocol=False):
     gi = cls.methods.get("generate_momentum_i")
     if gm is None or gi is None:
         raise AnalysisError("PhaseSpaceGenerator.generate_momentum / generate_momentum_i vanished")
+    if not any(isinstance(c_, ast.Call) and isinstance(c_.func, ast.Attribute) and c_.func.attr == gi.name for c_ in ast.walk(gm.node)):
+        # the driver no longer delegates to generate_momentum_i: the roles cannot be read off an abstracted step; the
+        # cascade as a whole (E6-cascade: shells, balance, massless daughters) decides generate_momentum
+        chk.info("S-roles: generate_momentum does not call generate_momentum_i any more - decided by E6-cascade")
+        return
     for n in range(2, 7):
         mus = list(sp.symbols("mu0:%d" % n, positive=True))
         Mtop = sp.Symbol("M", positive=True)
@@ -368,8 +376,15 @@ def dtype_flow(repo, chk):
     tainted = set(gp.params)
     bad = []
 
-    def is_f64_conversion(c):
-        if not (isinstance(c, ast.Call) and norm_text(c.func).split(".")[-1] in ("convert_to_tensor", "constant", "float64", "asarray", "array")):
+    def is_f64_conversion(c, depth=0):
+        if not isinstance(c, ast.Call):
+            return False
+        if isinstance(c.func, ast.Name) and c.func.id in gp.mod.funcs and depth < 2:
+            # a helper of the module whose every return is a float64 conversion (of its argument)
+            h = gp.mod.funcs[c.func.id]
+            rets = [r.value for r in ast.walk(h.node) if isinstance(r, ast.Return) and r.value is not None]
+            return bool(rets) and all(any(is_f64_conversion(x, depth + 1) for x in ast.walk(r)) for r in rets)
+        if norm_text(c.func).split(".")[-1] not in ("convert_to_tensor", "constant", "float64", "asarray", "array"):
             return False
         txt = norm_text(c)
         return "float64" in txt
